@@ -346,6 +346,26 @@ fn constructor_cases(slice: usize, thorough: bool, f: &mut dyn FnMut(Case)) {
                             "dyn_array" => vec![(J::Mapping(1, 2), "mapping-vs-array")],
                             _ => vec![(J::Mapping(1, 2), "mapping-vs-array"), (J::FixedArray(2, 3), "fixed-arrays-of-different-length")],
                         };
+                        if ctor == "dyn_array" && top == 0 && ev.len() <= 1 {
+                            // two words of different known widths next to the array: the array tolerates either word,
+                            // but the two words contradict each other (same variable, and split over the equated pair)
+                            for (va, vb) in [(0usize, 0usize), (0, 3), (3, 0)] {
+                                for (ua, ub) in [(2u8, 2u8), (0, 2), (4, 5)] {
+                                    let mut s2 = set.clone();
+                                    let (wa, wb) = if (ua, ub) == (4, 5) { (8, 160) } else { (64, 128) };
+                                    s2.push((va, J::Word(Some(wa), ua)));
+                                    s2.push((vb, J::Word(Some(wb), ub)));
+                                    f(Case {
+                                        set: s2,
+                                        n: 7,
+                                        expect: vec![(0, None), (3, None)],
+                                        same: vec![(0, 3)],
+                                        shape: vec![],
+                                        label: "contradiction:two-widths-next-to-an-array".to_string(),
+                                    });
+                                }
+                            }
+                        }
                         for (cj, why) in contra {
                             let mut s2 = set.clone();
                             s2.push((0, cj));
@@ -436,7 +456,7 @@ impl Check for C15 {
              `Any` on either side and on a third variable that is only declared equal (quick tier: for component evidence of at most one judgement per component). \
              Expected: the join computed on the chains (not with the tool's merge table), never a conflict, constructors kept with \
              unified components. Then the same sets with exactly one plainly contradictory judgement (different width incl. width 0, signed vs \
-             unsigned / address, bool vs numeric, mapping vs array, mapping vs sized word, fixed arrays of different length): the class \
+             unsigned / address, bool vs numeric, mapping vs array, mapping vs sized word, fixed arrays of different length, two words of different widths next to a dynamic array): the class \
              must be a conflict. Every set runs on the real unifier under the canonical order and every single deviation at the \
              unification order points. states = judgement sets; transitions = unifications executed",
             true,
